@@ -147,7 +147,8 @@ pub fn run_history_ex(entry: &ConfigEntry, ops: &[Op], params: &RunParams, group
     slab::select(0);
     slab::reset(0, params.slab);
     let _ = crash::take_last_panic();
-    let opts = RunOpts { groups, h: params.h, last_only, raw_roundtrip: params.roundtrip, probes };
+    let ctor_capacity = if let Ctor::TryWithCapacity(s, a) = params.ctor { Some((s, a)) } else { None };
+    let opts = RunOpts { groups, h: params.h, last_only, raw_roundtrip: params.roundtrip, probes, ctor_capacity };
     let mut exec = Exec::new(ops, &opts);
     if want_trace {
         exec.trace = Some(Vec::with_capacity(ops.len()));
@@ -227,7 +228,7 @@ pub fn run_reset_loop(entry: &ConfigEntry, ops: &[Op], params: &RunParams, round
     slab::select(0);
     slab::reset(0, params.slab);
     let _ = crash::take_last_panic();
-    let opts = RunOpts { groups: 0, h: params.h, last_only: true, raw_roundtrip: false, probes: false };
+    let opts = RunOpts { groups: 0, h: params.h, last_only: true, raw_roundtrip: false, probes: false, ctor_capacity: None };
     let ctx = InflightCtx { cfg: &entry.cfg, params, ops };
     crash::set_inflight_lazy(&ctx as *const _ as *const (), fmt_inflight);
     let mut msg: Option<String> = None;
